@@ -2,6 +2,7 @@ package prog
 
 import (
 	"fmt"
+	"os"
 	"runtime"
 	"runtime/debug"
 	"strings"
@@ -88,8 +89,19 @@ var AllTargets = []string{TGounions, TRanddata, TSqlcrud, TSqlcrudS, TSQL, TTS, 
 // Outputs of one target: file name -> text. Single-file targets use "".
 type Outputs map[string]string
 
+// StageMarks, when set (worker processes), announces every stage on stderr so
+// that the orchestrator can name the stage in which a process died.
+var StageMarks = false
+
+func mark(stage string) {
+	if StageMarks {
+		os.Stderr.WriteString("STAGE " + stage + "\n")
+	}
+}
+
 // Analyse runs NewAnalysisFromFile on the i-th analysed file.
 func (l *Loaded) Analyse(i int) (an *analysis.Analysis, pi *PanicInfo) {
+	mark("analysis")
 	pi = Guard(func() { an = analysis.NewAnalysisFromFile(l.Root, l.RootFiles[i]) })
 	return an, pi
 }
@@ -100,6 +112,7 @@ func (l *Loaded) DartRoot() string { return l.Prog.Dir(l.Prog.Root()) }
 // RunTarget runs one generator on the analyses (only dart uses more than the first).
 func (l *Loaded) RunTarget(target string, ans []*analysis.Analysis) (out Outputs, pi *PanicInfo) {
 	an := ans[0]
+	mark(target)
 	pi = Guard(func() {
 		switch target {
 		case TGounions:
